@@ -371,6 +371,9 @@ def check_json(inp):
     kw = {} if ensure_ascii is None else {'ensure_ascii': ensure_ascii}
     hdr = tuple(table[0])
     body = [tuple(jsonify(c) for c in r) for r in table[1:]]
+    if form in ('array', 'lines'):
+        # records carry EVERY field: a short row is padded with None (documented for dicts()), surplus cells have no field to live under
+        body = [tuple((list(r) + [None] * len(hdr))[:len(hdr)]) for r in body]
     with workdir(kind != 'mem') as d:
         tg = Target(kind, d, 'x.json')
         if form == 'array':
@@ -433,6 +436,11 @@ def _json_inputs(tier, seed):
             for form in FORMS:
                 yield (form, [hdr, (a, 'a')], None, 'mem')
                 yield (form, [hdr[:1], (a,), (None,), (a,)], False, 'mem')
+    for a in (None, 0, 'x'):
+        for form in ('array', 'lines'):
+            # ragged tables through the record forms: short first row, short later row, long row
+            yield (form, [H2, (a,), (a, 'b'), ('c', a, 'extra')], None, 'mem')
+            yield (form, [H2, (a, 'b'), (), (a,)], None, 'mem')
     for t in tables([None, '\n'], widths=(0, 1, 2), maxrows=3 if tier == 'thorough' else 2, ragged=True):
         for form in ('arrays', 'arrays+header', 'arrays-lines'):
             yield (form, t, None, 'mem')
